@@ -344,8 +344,13 @@ Definition sep_ok (g : grammar) (nd : node) : bool :=
     | _ => false
     end
   end.
+(* eolterm on repetitions (it has no effect on an optional); inside an eolterm repetition a rule-level ws
+   modifier is restored wrongly by the interpreter (the effective, newline-stripped set is written back as
+   the real one), so a table with eolterm must not have rule-level ws at all ([eol_ws_ok], in [wfg]) *)
+Definition eolk_ok (nd : node) : bool :=
+  negb (n_eolterm nd) || match n_kind nd with KStar | KPlus | KOpt => true | _ => false end.
 Definition node_ok (g : grammar) (pr : nat -> bool) (nd : node) : bool :=
-  sep_ok g nd && negb (n_eolterm nd) && mods_ok nd &&
+  sep_ok g nd && eolk_ok nd && mods_ok nd &&
   forallb (fun c => Nat.ltb c (length (g_nodes g))) (n_kids nd) &&
   match n_kind nd with
   | KSeq => if live_root nd then prod_nd pr nd else true
@@ -357,7 +362,9 @@ Definition node_ok (g : grammar) (pr : nat -> bool) (nd : node) : bool :=
   | KAnd | KNot | KEmpty => negb (live_root nd)
   | KUnord => false
   end.
+Definition nows (g : grammar) : bool := forallb (fun nd => opt_none (n_ws nd)) (g_nodes g).
+Definition eol_ws_ok (g : grammar) : bool := forallb (fun nd => negb (n_eolterm nd)) (g_nodes g) || nows g.
 Definition wfg (g : grammar) (pf : nat) : bool :=
   (let t := prod_tbl g pf in forallb (node_ok g (fun c => nth c t false)) (g_nodes g)) && opt_none (g_comments g)
-  && Nat.ltb (g_top g) (length (g_nodes g)).
+  && Nat.ltb (g_top g) (length (g_nodes g)) && eol_ws_ok g.
 Definition orc_pos (orc : nat -> nat -> option nat) : Prop := forall o p n, orc o p = Some n -> 0 < n.
